@@ -137,3 +137,106 @@ pub proof fn lemma_board_deltas(v: Pos, m: Move, kind: u64)
     lemma_bit_and_mask(y, cap_sq(v, m));
     lemma_hash_cap_bits(y, kind, captured, cap_sq(v, m), oc);
 }
+
+/// selecting one of five keys by kind: the xor over kinds 6..2 of "key if this kind" is the key of the selected kind
+pub open spec fn sel5(p: u64, f6: u64, f5: u64, f4: u64, f3: u64, f2: u64) -> u64 {
+    if p == 6 { f6 } else if p == 5 { f5 } else if p == 4 { f4 } else if p == 3 { f3 } else if p == 2 { f2 } else { 0 }
+}
+pub proof fn lemma_select5(p: u64, f6: u64, f5: u64, f4: u64, f3: u64, f2: u64)
+    ensures ((((kif(6 == p, f6) ^ kif(5 == p, f5)) ^ kif(4 == p, f4)) ^ kif(3 == p, f3)) ^ kif(2 == p, f2)) == sel5(p, f6, f5, f4, f3, f2)
+{
+    assert(((((f6 ^ 0) ^ 0) ^ 0) ^ 0) == f6 && ((((0u64 ^ f5) ^ 0) ^ 0) ^ 0) == f5 && ((((0u64 ^ 0) ^ f4) ^ 0) ^ 0) == f4
+        && ((((0u64 ^ 0) ^ 0) ^ f3) ^ 0) == f3 && ((((0u64 ^ 0) ^ 0) ^ 0) ^ f2) == f2 && ((((0u64 ^ 0) ^ 0) ^ 0) ^ 0) == 0) by(bit_vector);
+}
+/// regrouping: per-kind (source ^ target) deltas = (all source deltas) ^ (all target deltas) ^ castle-rook keys
+pub proof fn lemma_regroup(s6: u64, s5: u64, s4: u64, s3: u64, s2: u64, d6: u64, d5: u64, d4: u64, d3: u64, d2: u64, rf: u64, rt: u64)
+    ensures
+        (((((s6 ^ d6) ^ (s5 ^ d5)) ^ (((s4 ^ d4) ^ rf) ^ rt)) ^ (s3 ^ d3)) ^ (s2 ^ d2))
+            == ((((((s6 ^ s5) ^ s4) ^ s3) ^ s2) ^ ((((d6 ^ d5) ^ d4) ^ d3) ^ d2)) ^ rf) ^ rt,
+        (((((s6 ^ d6) ^ (s5 ^ d5)) ^ (s4 ^ d4)) ^ (s3 ^ d3)) ^ (s2 ^ d2))
+            == (((((s6 ^ s5) ^ s4) ^ s3) ^ s2) ^ ((((d6 ^ d5) ^ d4) ^ d3) ^ d2)),
+{
+    assert((((((s6 ^ d6) ^ (s5 ^ d5)) ^ (((s4 ^ d4) ^ rf) ^ rt)) ^ (s3 ^ d3)) ^ (s2 ^ d2))
+            == ((((((s6 ^ s5) ^ s4) ^ s3) ^ s2) ^ ((((d6 ^ d5) ^ d4) ^ d3) ^ d2)) ^ rf) ^ rt
+        && (((((s6 ^ d6) ^ (s5 ^ d5)) ^ (s4 ^ d4)) ^ (s3 ^ d3)) ^ (s2 ^ d2))
+            == (((((s6 ^ s5) ^ s4) ^ s3) ^ s2) ^ ((((d6 ^ d5) ^ d4) ^ d3) ^ d2))) by(bit_vector);
+}
+/// total non-pawn delta of the mover's boards (kinds 6,5,4,3,2 in hash order) and of the opponent's boards
+pub open spec fn me_total(v: Pos, m: Move) -> u64 {
+    (((me_delta(v, m, 6) ^ me_delta(v, m, 5)) ^ me_delta(v, m, 4)) ^ me_delta(v, m, 3)) ^ me_delta(v, m, 2)
+}
+pub open spec fn op_total(v: Pos, m: Move) -> u64 {
+    (((op_delta(v, m, 6) ^ op_delta(v, m, 5)) ^ op_delta(v, m, 4)) ^ op_delta(v, m, 3)) ^ op_delta(v, m, 2)
+}
+/// the position hash splits into non-pawn boards of white, of black, the four right keys and the pawn hash
+pub proof fn lemma_hash_shape(w: Side, b: Side, turn: u32, ep: u32)
+    ensures
+        hash_c(w, b, turn, ep) == (((((np_hash(w, 0) ^ np_hash(b, 1)) ^ kif(w.qs, castle_key(5, 0))) ^ kif(w.ks, castle_key(6, 0))) ^ kif(b.qs, castle_key(5, 1)))
+            ^ kif(b.ks, castle_key(6, 1))) ^ pawn_hash_c(w, b, turn, ep),
+{
+    let (a0, a1, a2, a3, a4) = (occ_hash(w.kings, 6, 0), occ_hash(w.queens, 5, 0), occ_hash(w.rooks, 4, 0), occ_hash(w.bishops, 3, 0), occ_hash(w.knights, 2, 0));
+    let (b0, b1, b2, b3, b4) = (occ_hash(b.kings, 6, 1), occ_hash(b.queens, 5, 1), occ_hash(b.rooks, 4, 1), occ_hash(b.bishops, 3, 1), occ_hash(b.knights, 2, 1));
+    let h0 = a0 ^ a1 ^ a2 ^ a3 ^ a4 ^ b0 ^ b1 ^ b2 ^ b3 ^ b4;
+    assert(h0 == ((((a0 ^ a1) ^ a2) ^ a3) ^ a4) ^ ((((b0 ^ b1) ^ b2) ^ b3) ^ b4)) by(bit_vector)
+        requires h0 == (((((((((a0 ^ a1) ^ a2) ^ a3) ^ a4) ^ b0) ^ b1) ^ b2) ^ b3) ^ b4);
+    let h1 = if w.qs { h0 ^ castle_key(5, 0) } else { h0 };
+    lemma_kif(w.qs, castle_key(5, 0), h0);
+    let h2 = if w.ks { h1 ^ castle_key(6, 0) } else { h1 };
+    lemma_kif(w.ks, castle_key(6, 0), h1);
+    let h3 = if b.qs { h2 ^ castle_key(5, 1) } else { h2 };
+    lemma_kif(b.qs, castle_key(5, 1), h2);
+    lemma_kif(b.ks, castle_key(6, 1), h3);
+}
+
+/// assembling the full-hash delta from the deltas of its parts (pure xor algebra)
+pub proof fn lemma_assemble(npw: u64, npb: u64, npw2: u64, npb2: u64, dw: u64, db: u64,
+                            a1: u64, a2: u64, a3: u64, a4: u64, b1: u64, b2: u64, b3: u64, b4: u64, l1: u64, l2: u64, l3: u64, l4: u64,
+                            pw: u64, pb: u64, pw2: u64, pb2: u64, dpw: u64, dpb: u64, sv: u64, ss: u64, bk: u64, ev: u64, es: u64)
+    requires
+        npw ^ npw2 == dw, npb ^ npb2 == db,
+        a1 ^ b1 == l1, a2 ^ b2 == l2, a3 ^ b3 == l3, a4 ^ b4 == l4,
+        pw2 == pw ^ dpw, pb2 == pb ^ dpb, sv ^ ss == bk,
+    ensures
+        (((pw ^ pb) ^ sv) ^ ev) ^ (((pw2 ^ pb2) ^ ss) ^ es) == (((dpw ^ dpb) ^ bk) ^ ev) ^ es,
+        ((((((npw ^ npb) ^ a1) ^ a2) ^ a3) ^ a4) ^ (((pw ^ pb) ^ sv) ^ ev)) ^ ((((((npw2 ^ npb2) ^ b1) ^ b2) ^ b3) ^ b4) ^ (((pw2 ^ pb2) ^ ss) ^ es))
+            == ((dw ^ db) ^ (((l1 ^ l2) ^ l3) ^ l4)) ^ ((((dpw ^ dpb) ^ bk) ^ ev) ^ es),
+{
+    assert(npw ^ npw2 == dw && npb ^ npb2 == db && a1 ^ b1 == l1 && a2 ^ b2 == l2 && a3 ^ b3 == l3 && a4 ^ b4 == l4
+        && pw2 == pw ^ dpw && pb2 == pb ^ dpb && sv ^ ss == bk
+        ==> (((pw ^ pb) ^ sv) ^ ev) ^ (((pw2 ^ pb2) ^ ss) ^ es) == (((dpw ^ dpb) ^ bk) ^ ev) ^ es
+         && ((((((npw ^ npb) ^ a1) ^ a2) ^ a3) ^ a4) ^ (((pw ^ pb) ^ sv) ^ ev)) ^ ((((((npw2 ^ npb2) ^ b1) ^ b2) ^ b3) ^ b4) ^ (((pw2 ^ pb2) ^ ss) ^ es))
+            == ((dw ^ db) ^ (((l1 ^ l2) ^ l3) ^ l4)) ^ ((((dpw ^ dpb) ^ bk) ^ ev) ^ es)) by(bit_vector);
+}
+
+/// total deltas of the two sides in closed form
+pub proof fn lemma_totals(v: Pos, m: Move)
+    requires board_wf(v), move_wf(v, m)
+    ensures
+        ({
+            let c = v.turn; let oc = (1 - v.turn) as u32;
+            let src = f_source_square(m.bits); let dst = f_target_square(m.bits); let promo = f_promotion_piece(m.bits);
+            let piece = piece_at(side(v, c), sqm(src));
+            let landed = if promo != 0 { promo } else { piece };
+            let captured = piece_at(side(v, oc), capture_mask(v, piece, src, dst));
+            let csq = cap_sq(v, m);
+            let s5 = sel5(piece, key(6, src, c), key(5, src, c), key(4, src, c), key(3, src, c), key(2, src, c));
+            let d5 = sel5(landed, key(6, dst, c), key(5, dst, c), key(4, dst, c), key(3, dst, c), key(2, dst, c));
+            &&& me_total(v, m) == (if is_castle_rule(piece, src, dst) { ((s5 ^ d5) ^ key(4, castle_rook_from_sq(src, dst), c)) ^ key(4, castle_rook_to_sq(src, dst), c) } else { s5 ^ d5 })
+            &&& op_total(v, m) == sel5(captured, key(6, csq, oc), key(5, csq, oc), key(4, csq, oc), key(3, csq, oc), key(2, csq, oc))
+        }),
+{
+    let c = v.turn; let oc = (1 - v.turn) as u32;
+    let src = f_source_square(m.bits); let dst = f_target_square(m.bits); let promo = f_promotion_piece(m.bits);
+    let piece = piece_at(side(v, c), sqm(src));
+    let landed = if promo != 0 { promo } else { piece };
+    let captured = piece_at(side(v, oc), capture_mask(v, piece, src, dst));
+    let csq = cap_sq(v, m);
+    let (s6, s5_, s4, s3, s2) = (kif(6 == piece, key(6, src, c)), kif(5 == piece, key(5, src, c)), kif(4 == piece, key(4, src, c)), kif(3 == piece, key(3, src, c)), kif(2 == piece, key(2, src, c)));
+    let (d6, d5_, d4, d3, d2) = (kif(6 == landed, key(6, dst, c)), kif(5 == landed, key(5, dst, c)), kif(4 == landed, key(4, dst, c)), kif(3 == landed, key(3, dst, c)), kif(2 == landed, key(2, dst, c)));
+    let rf = key(4, castle_rook_from_sq(src, dst), c);
+    let rt = key(4, castle_rook_to_sq(src, dst), c);
+    lemma_regroup(s6, s5_, s4, s3, s2, d6, d5_, d4, d3, d2, rf, rt);
+    lemma_select5(piece, key(6, src, c), key(5, src, c), key(4, src, c), key(3, src, c), key(2, src, c));
+    lemma_select5(landed, key(6, dst, c), key(5, dst, c), key(4, dst, c), key(3, dst, c), key(2, dst, c));
+    lemma_select5(captured, key(6, csq, oc), key(5, csq, oc), key(4, csq, oc), key(3, csq, oc), key(2, csq, oc));
+}
